@@ -564,6 +564,115 @@ def diff_pair(files, cfg_a, cfg_b, base: Path):
 
 # ---------------------------------------------------------------------------------------------
 
+
+# ---- process history: a parse must not depend on what the same process parsed before -------------------------------------
+HISTORY_SCRIPT = Path(__file__).resolve().parent.parent / "impl" / "c05_history.py"
+H_ADORN = ["=", "-", "~", "^", "*", "#"]
+H_WORDS = ["alpha", "beta", "gamma", "delta", "shard", "replica", "index", "cursor"]
+
+
+def history_doc(rng) -> str:
+    """documents built from the constructs that park state in process-wide caches: over/underlined and underlined titles at
+    changing levels (nested state machines are pooled), transitions at the very end of a body, directives with nested content,
+    lists, roles (registry lookups), default-domain switches"""
+    out = []
+
+    def title(depth):
+        t = " ".join(rng.choice(H_WORDS) for _ in range(rng.randint(1, 2))).capitalize()
+        c = H_ADORN[min(depth, len(H_ADORN) - 1)] if rng.random() < 0.8 else rng.choice(H_ADORN)
+        ln = len(t) if rng.random() < 0.85 else rng.choice([3, len(t) + 2])
+        if rng.random() < 0.45:
+            return [c * ln, t, c * ln, ""]
+        return [t, c * ln, ""]
+
+    def body(ind):
+        r = rng.random()
+        if r < 0.35:
+            lines = [" ".join(rng.choice(H_WORDS) for _ in range(rng.randint(2, 6))) + "."]
+        elif r < 0.5:
+            lines = [f"- {rng.choice(H_WORDS)}", f"- {rng.choice(H_WORDS)}"]
+        elif r < 0.65:
+            lines = [f"See :ref:`{rng.choice(H_WORDS)}` and :{rng.choice(['method', 'binary', 'guilabel', 'nosuch'])}:`{rng.choice(H_WORDS)}`."]
+        elif r < 0.8:
+            lines = ["-" * rng.choice([4, 8, 20])]
+        elif r < 0.9:
+            lines = [f".. default-domain:: {rng.choice(['mongodb', 'std', 'py'])}"]
+        else:
+            lines = [rng.choice(H_WORDS), "   " + rng.choice(H_WORDS) + " definition"]
+        return [ind + l for l in lines] + [""]
+
+    depth = 0
+    if rng.random() < 0.8:
+        out += title(0)
+    for _ in range(rng.randint(2, 7)):
+        r = rng.random()
+        if r < 0.35:
+            depth = max(0, min(3, depth + rng.choice([-2, -1, 0, 0, 1])))
+            out += title(depth)
+        elif r < 0.55:
+            name = rng.choice(["note", "tip", "warning", "important", "example", "step", "procedure", "only html"])
+            head = ".. " + (name if " " in name else name + "::")
+            if " " in name:
+                head = ".. only:: html"
+            out += [head, ""]
+            for _ in range(rng.randint(1, 3)):
+                out += body("   ")
+        else:
+            out += body("")
+    # endings: with / without the trailing blank line, sometimes a transition as the very last line
+    while out and out[-1] == "":
+        out.pop()
+    if rng.random() < 0.3:
+        out += ["", ("   " if rng.random() < 0.3 else "") + "-" * 8]
+    return "\n".join(out) + ("\n" if rng.random() < 0.7 else "")
+
+
+def run_history(docs, order, base: Path, tag: str):
+    req, res = base / f"hist-{tag}-in.json", base / f"hist-{tag}-out.json"
+    req.write_text(json.dumps({"docs": docs, "order": order}, ensure_ascii=False), encoding="utf-8")
+    env = {k: v for k, v in os.environ.items()}
+    env["PYTHONHASHSEED"] = "0"
+    env["PYTHONPATH"] = str(core.REPO)
+    try:
+        p = subprocess.run(["/venv/bin/python", "-W", "ignore", str(HISTORY_SCRIPT), str(req), str(res)], env=env,
+                           stdout=subprocess.PIPE, stderr=subprocess.PIPE, timeout=600, cwd=str(base))
+    except subprocess.TimeoutExpired:
+        raise core.Infra("history subprocess timed out")
+    if p.returncode != 0 or not res.exists():
+        raise core.Infra("history subprocess failed: " + p.stderr.decode("utf-8", "replace")[-400:])
+    return json.loads(res.read_text(encoding="utf-8"))
+
+
+def history_difference(docs, orders, base: Path):
+    """index of the first document whose result differs between the runs, with a description; or None"""
+    runs = [run_history(docs, o, base, str(k)) for k, o in enumerate(orders)]
+    for i in range(len(docs)):
+        for k in range(1, len(runs)):
+            a, b = runs[0].get(str(i)), runs[k].get(str(i))
+            if a is None or b is None:
+                continue
+            if a != b:
+                what = "exception" if ("exc" in a or "exc" in b) else ("ast" if a.get("ast") != b.get("ast") else "diagnostics")
+                return i, k, what, f"document {i} parsed in order {orders[0]} vs {orders[k]}: {what} differ"
+    return None
+
+
+def shrink_history(docs, orders, base: Path):
+    """keep only the documents needed: try the pair (culprit before victim) alone"""
+    d = history_difference(docs, orders, base)
+    if not d:
+        return docs, orders
+    victim = d[0]
+    for other in range(len(docs)):
+        if other == victim:
+            continue
+        sub = [docs[other], docs[victim]]
+        o2 = [[0, 1], [1, 0]]
+        if history_difference(sub, o2, base):
+            return sub, o2
+    return docs, orders
+
+
 class C05(core.PropertyCheck):
     id = "C05"
     level = "proof"
@@ -739,6 +848,13 @@ class C05(core.PropertyCheck):
             finally:
                 shutil.rmtree(base, ignore_errors=True)
             return {"component": d[0] if d else None, "difference": d[1] if d else None}
+        if k == "history":
+            base = Path(tempfile.mkdtemp(prefix="c05-hist-replay-"))
+            try:
+                d = history_difference(case["docs"], case["orders"], base)
+            finally:
+                shutil.rmtree(base, ignore_errors=True)
+            return {"component": ("history:" + d[2]) if d else None, "difference": d[3] if d else None}
         raise ValueError(k)
 
     # ---- model ----
@@ -806,11 +922,16 @@ class C05(core.PropertyCheck):
         elif k == "diff":
             if impl["component"]:
                 return f"two builds of the same project differ [{impl['component']}]: {impl['difference']}"
+        elif k == "history":
+            if impl["component"]:
+                return f"the parse of a document depends on what the process parsed before [{impl['component']}]: {impl['difference']}"
         return None
 
     def finding_key(self, case, impl, desc):
         if case["kind"] == "diff":
             return "diff:" + str(impl.get("component"))
+        if case["kind"] == "history":
+            return str(impl.get("component"))
         return case["kind"] + ":" + desc.split(":")[0][:60]
 
     def nontrivial_key(self, case, impl):
@@ -882,6 +1003,42 @@ class C05(core.PropertyCheck):
                 results = list(ex.map(one, range(nproj)))
         finally:
             shutil.rmtree(base, ignore_errors=True)
+        # process history: the same documents parsed in one process in two different orders
+        ngroups, per = (6, 14) if tier == "quick" else (40, 20)
+        hbase = Path(tempfile.mkdtemp(prefix="c05-hist-"))
+        hist_docs = 0
+        try:
+            def hist(g):
+                r = random.Random(f"{g}:{hist_seed}")
+                docs = [history_doc(r) for _ in range(per)]
+                fwd = list(range(per))
+                orders = [fwd, fwd[::-1]]
+                if tier != "quick":
+                    sh = fwd[:]
+                    r.shuffle(sh)
+                    orders.append(sh)
+                gb = hbase / f"g{g}"
+                gb.mkdir()
+                d = history_difference(docs, orders, gb)
+                if not d:
+                    return None
+                sd, so = shrink_history(docs, [orders[0], orders[d[1]]], gb)
+                d2 = history_difference(sd, so, gb) or d
+                return {"case": {"kind": "history", "docs": sd, "orders": so},
+                        "impl": {"component": "history:" + d2[2], "difference": d2[3]},
+                        "desc": f"the parse of a document depends on what the process parsed before [history:{d2[2]}]: {d2[3]}",
+                        "key": "history:" + d2[2]}
+            hist_seed = rng.randrange(10 ** 9)
+            with ThreadPoolExecutor(max(1, min(core.NPROC, ngroups, 8))) as ex:
+                hres = list(ex.map(hist, range(ngroups)))
+            hist_docs = ngroups * per
+            seen_h = set()
+            for h in hres:
+                if h and h["key"] not in seen_h:
+                    seen_h.add(h["key"])
+                    violations.append(h)
+        finally:
+            shutil.rmtree(hbase, ignore_errors=True)
         ndiag, diag_types, crashed = 0, set(), 0
         for ref, found in results:
             violations.extend(found)
@@ -897,7 +1054,9 @@ class C05(core.PropertyCheck):
             "diagnostics_in_baselines": ndiag, "diagnostic_types_seen": sorted(diag_types),
             "differences_found": len(violations),
             "configurations_example": configs[0],
-        }}
+        }, "process_history": {"groups": ngroups, "documents_per_group": per, "documents": hist_docs,
+                               "orders": "forward vs reversed" + ("" if tier == "quick" else " vs shuffled"),
+                               "what": "each document's serialised AST and diagnostics must be the same whatever the process parsed before it"}}
         return violations, cov
 
 
